@@ -286,7 +286,20 @@ func (g *DocGen) litFor(dt string) *ALit {
 			v = r.BigBelow(new(big.Int).Add(new(big.Int).Sub(hi, lo), big.NewInt(1)))
 			v.Add(v, lo)
 		} else {
-			switch r.Intn(6) {
+			switch r.Intn(7) {
+			case 6:
+				// around the ends of the 64-bit machine words (as strings: all digits count)
+				v = new(big.Int).Lsh(big.NewInt(1), uint(62+r.Intn(3)))
+				v.Add(v, big.NewInt(int64(r.Intn(5))-2))
+				if r.Chance(30) {
+					v = new(big.Int).SetUint64(r.U64() | 1<<63)
+				}
+				if hi.Sign() <= 0 || (lo.Sign() < 0 && r.Bool()) {
+					v.Neg(v)
+				}
+				if v.Cmp(lo) < 0 || v.Cmp(hi) > 0 {
+					v = new(big.Int).Set(hi)
+				}
 			case 5:
 				if pr.BitLen() > 80 {
 					return g.bigWhole(dt, hi.Sign() <= 0)
@@ -369,9 +382,19 @@ func (g *DocGen) litFor(dt string) *ALit {
 		return l
 	case local == "double":
 		f := float64(int64(r.Intn(1000000))-500000) / 64
+		if r.Chance(15) {
+			f = float64(int64(r.Intn(2000)) - 1000) // whole doubles: "42" must still mean 4.2E1
+		}
 		c := ld.GetCanonicalDouble(f)
 		s := strconv.FormatFloat(f, 'f', -1, 64)
-		return &ALit{DT: dt, Kind: "str", Canon: c, JSON: RawNum(s), Alts: []any{RawNum(strconv.FormatFloat(f, 'e', -1, 64))}, LexAlts: []any{s}}
+		e := strconv.FormatFloat(f, 'e', -1, 64)
+		l := &ALit{DT: dt, Kind: "str", Canon: c, JSON: RawNum(s), Alts: []any{RawNum(e)}, LexAlts: []any{s, e, c}}
+		if r.Chance(30) {
+			// a numeric string: the dataset keeps the text as written, the value is its canonical form
+			l.JSON = r.Pick([]string{s, e, c})
+			l.Alts = nil
+		}
+		return l
 	default:
 		if g.nativeInStr && r.Chance(15) {
 			// a JSON number or boolean under a non-numeric datatype: the dataset holds its JSON-LD spelling
